@@ -13,20 +13,52 @@ open FxVerif.Gen.C05 FxVerif.Model.C05 List
   have : callRefundReceiver = .refund := by decide
   simp [callRefundTo, this]
 
-/-- applying a bridge-call result: success deletes the record and logs the execution, failure refunds and deletes it
-(regenerated: `resultRefundsOn…`, `resultDeletesOn…`) -/
+/-- applying a bridge-call result: success deletes the record and logs the execution, failure refunds and THEN deletes it
+(regenerated statement lists `resultSuccessBody`, `resultFailureBody`, `deleteRecordBody`, run in source order) -/
 theorem doExec_eq (s : State) (n : Nat) : doExec s n = doExecStd s n := by
-  have h1 : resultRefundsOnFailure = true := by decide
-  have h2 : resultRefundsOnSuccess = false := by decide
-  have h3 : resultDeletesOnFailure = true := by decide
-  have h4 : resultDeletesOnSuccess = true := by decide
+  have h1 : resultFailureBody = ["HandleOutgoingBridgeCallRefund", "DeleteOutgoingBridgeCallRecord"] := by decide
+  have h2 : resultSuccessBody = ["DeleteOutgoingBridgeCallRecord"] := by decide
+  have h3 : deleteRecordBody = ["DeleteOutgoingBridgeCall", "DeleteBridgeCallConfirm", "DeleteBridgeCallFromMsg"] := by decide
+  have h4 : deleteRecordDropsFromMsg = true := by decide
   unfold doExec doExecStd
   split
   · rfl
   · split
     · rfl
     · rename_i p _ _ c _
-      cases hp : p.2.2 <;> simp [h1, h2, h3, h4]
+      cases hp : p.2.2 <;> simp [h1, h2, h3, h4, callStmts, callStmt, callPrim, dropFromMsg, refundCall]
+
+/-- the flag form of `doExec` (per outcome: refunded? deleted?) the older proofs were written against -/
+def doExecFlags (s : State) (n : Nat) : State × Res :=
+  match s.pending.find? (fun p => p.1 = n) with
+  | none => (s, .err)
+  | some p =>
+    match s.calls.find? (fun c => c.nonce = p.2.1) with
+    | none => (s, .panic)
+    | some c =>
+      let refunds := if p.2.2 then resultRefundsOnSuccess else resultRefundsOnFailure
+      let deletes := if p.2.2 then resultDeletesOnSuccess else resultDeletesOnFailure
+      let s1 := { s with pending := s.pending.erase p, calls := if deletes then s.calls.erase c else s.calls }
+      let fin := fun (st : State) => if deletes then dropFromMsg [c.nonce] st else st
+      if refunds then (fin (refundCall s1 c), .ok 0)
+      else if p.2.2 then (fin { s1 with settled := s1.settled ++ [⟨true, c.nonce, .executed, 0, c.tokens⟩] }, .ok 0)
+      else (fin s1, .ok 0)
+
+theorem doExecFlags_eq (s : State) (n : Nat) : doExecFlags s n = doExecStd s n := by
+  have h1 : resultRefundsOnFailure = true := by decide
+  have h2 : resultRefundsOnSuccess = false := by decide
+  have h3 : resultDeletesOnFailure = true := by decide
+  have h4 : resultDeletesOnSuccess = true := by decide
+  unfold doExecFlags doExecStd
+  cases s.pending.find? (fun p => p.1 = n) with
+  | none => rfl
+  | some p =>
+    simp only
+    cases s.calls.find? (fun c => c.nonce = p.2.1) with
+    | none => rfl
+    | some c => cases hp : p.2.2 <;> simp [h1, h2, h3, h4]
+
+theorem doExec_flags (s : State) (n : Nat) : doExec s n = doExecFlags s n := by rw [doExec_eq, doExecFlags_eq]
 
 /-! ## containers -/
 
@@ -152,13 +184,69 @@ theorem cancelBatches_frame (p : Batch → Bool) (s : State) :
     (cancelBatches p s).bal = s.bal ∧ (cancelBatches p s).pending = s.pending := by
   simp [cancelBatches]
 
-/-- `cleanupCalls` is `cleanupCallsCore` up to the from-message marks -/
-theorem cleanupCalls_core (s : State) : ∃ fm, cleanupCalls s = { cleanupCallsCore s with fromMsg := fm } := by
-  unfold cleanupCalls dropFromMsg
-  simp only
-  split
-  · exact ⟨_, rfl⟩
-  · exact ⟨_, rfl⟩
+/-! ## the sequential clean-up (`cleanupCalls`: regenerated callback body, run record after record) against the closed form -/
+
+/-- everything except the two origin-dependent components -/
+def core (s : State) : State := { s with erc := [], fromMsg := [] }
+
+theorem eq_of_core {a b : State} (h : core a = core b) : a = { b with fromMsg := a.fromMsg, erc := a.erc } := by
+  cases a; cases b; simp_all [core]
+
+
+theorem core_refundCall_congr {a b : State} (h : core a = core b) (c : Call) : core (refundCall a c) = core (refundCall b c) := by
+  cases a; cases b; simp_all [core, refundCall]
+
+theorem core_foldl_refundCall_congr (l : List Call) : ∀ {a b : State}, core a = core b →
+    core (l.foldl refundCall a) = core (l.foldl refundCall b) := by
+  induction l with
+  | nil => intro a b h; exact h
+  | cons c l ih => intro a b h; exact ih (core_refundCall_congr h c)
+
+theorem callStmts_cleanup (c : Call) (s : State) :
+    callStmts c callCleanupBody s =
+      { refundCall s c with calls := s.calls.erase c, fromMsg := s.fromMsg.filter (fun n => !([c.nonce].contains n)) } := by
+  have h1 : callCleanupBody = ["HandleOutgoingBridgeCallRefund", "DeleteOutgoingBridgeCallRecord"] := by decide
+  have h2 : deleteRecordBody = ["DeleteOutgoingBridgeCall", "DeleteBridgeCallConfirm", "DeleteBridgeCallFromMsg"] := by decide
+  simp [callStmts, callStmt, callPrim, h1, h2, refundCall]
+
+theorem seq_cleanup_core (pre rest : List Call) : ∀ (s : State), s.calls = pre ++ rest →
+    core (pre.foldl (fun s c => callStmts c callCleanupBody s) s) = core (pre.foldl refundCall { s with calls := rest }) := by
+  induction pre with
+  | nil => intro s h; simp only [foldl_nil, nil_append] at h ⊢; rw [← h]
+  | cons c pre ih =>
+    intro s h
+    simp only [foldl_cons]
+    rw [callStmts_cleanup]
+    rw [ih _ (by simp [h])]
+    apply core_foldl_refundCall_congr
+    simp [core, refundCall]
+
+/-- `cleanupCalls` is `cleanupCallsCore` up to the from-message marks and the ERC-20 part of the ledger -/
+theorem cleanupCalls_core (s : State) : ∃ fm er, cleanupCalls s = { cleanupCallsCore s with fromMsg := fm, erc := er } := by
+  have h1 : callCleanupStops = true := by decide
+  have h2 : callCleanupDeletes = true := by decide
+  refine ⟨_, _, eq_of_core ?_⟩
+  unfold cleanupCalls cleanupCallsCore
+  simp only [h2, if_true]
+  have hs : s.calls = expiredCalls (heightOf callCleanupSrc s) s.calls ++ keptCalls (heightOf callCleanupSrc s) s.calls := by
+    simp [expiredCalls, keptCalls, h1]
+  exact seq_cleanup_core _ _ s hs
+
+/-- the from-message marks after the sequential clean-up: exactly the marks of the refunded records are gone -/
+theorem cleanupCalls_fromMsg (s : State) :
+    (cleanupCalls s).fromMsg =
+      s.fromMsg.filter (fun n => !(((expiredCalls (heightOf callCleanupSrc s) s.calls).map (·.nonce)).contains n)) := by
+  unfold cleanupCalls
+  generalize expiredCalls (heightOf callCleanupSrc s) s.calls = l
+  induction l generalizing s with
+  | nil => simp only [foldl_nil, map_nil]; exact (filter_eq_self.mpr (fun _ _ => by simp)).symm
+  | cons c l ih =>
+    simp only [foldl_cons]
+    rw [ih, callStmts_cleanup]
+    simp only [filter_filter, map_cons]
+    congr 1
+    funext n
+    simp [Bool.and_comm]
 
 theorem foldl_refundCall (cs : List Call) (s : State) :
     ((cs.foldl refundCall s).pool = s.pool ∧ (cs.foldl refundCall s).batches = s.batches ∧
@@ -195,7 +283,7 @@ theorem expired_kept_perm (h : Nat) (cs : List Call) : (expiredCalls h cs ++ kep
     simpa using this
 
 theorem cleanupCalls_tx (s : State) : allTxIds (cleanupCalls s) = allTxIds s := by
-  obtain ⟨fm, hfm⟩ := cleanupCalls_core s
+  obtain ⟨fm, er, hfm⟩ := cleanupCalls_core s
   rw [hfm]
   unfold cleanupCallsCore
   obtain ⟨h1, h2, _, _, _, _, h7⟩ := foldl_refundCall (expiredCalls (heightOf callCleanupSrc s) s.calls)
@@ -205,7 +293,7 @@ theorem cleanupCalls_tx (s : State) : allTxIds (cleanupCalls s) = allTxIds s := 
 theorem cleanupCalls_call (s : State) (a : Nat) :
     count a (allCallIds (cleanupCalls s)) = count a (allCallIds s) := by
   have hdel : callCleanupDeletes = true := by decide
-  obtain ⟨fm, hfm⟩ := cleanupCalls_core s
+  obtain ⟨fm, er, hfm⟩ := cleanupCalls_core s
   rw [hfm]
   unfold cleanupCallsCore
   simp only [hdel, if_true]
@@ -218,7 +306,7 @@ theorem cleanupCalls_call (s : State) (a : Nat) :
 
 theorem cleanupCalls_next (s : State) :
     (cleanupCalls s).nextTxId = s.nextTxId ∧ (cleanupCalls s).nextCallId = s.nextCallId := by
-  obtain ⟨fm, hfm⟩ := cleanupCalls_core s
+  obtain ⟨fm, er, hfm⟩ := cleanupCalls_core s
   rw [hfm]
   unfold cleanupCallsCore
   obtain ⟨_, _, _, h4, h5, _, _⟩ := foldl_refundCall (expiredCalls (heightOf callCleanupSrc s) s.calls)
@@ -278,7 +366,7 @@ theorem inv_cancel {s : State} (hi : Inv s) (id : Nat) (who : Addr) : Inv (doCan
           omega
         · simp [allCallIds, callIds, settledCallIds_append, settledCallIds]
 
-theorem inv_incFee {s : State} (hi : Inv s) (id : Nat) (who : Addr) (t : Token) (add : Nat) : Inv (doIncFee s id who t add).1 := by
+theorem inv_incFee {s : State} (hi : Inv s) (id : Nat) (who : Addr) (t : Token) (add : Nat) : Inv (doIncFee s id who t add evm).1 := by
   unfold doIncFee
   split
   · exact hi
@@ -449,7 +537,7 @@ theorem inv_step {s : State} (hi : Inv s) (op : Op) : Inv (step s op).1 := by
   cases op with
   | send a d t am f => exact inv_send hi a d t am f
   | cancel id who => exact inv_cancel hi id who
-  | incFee id who t add => exact inv_incFee hi id who t add
+  | incFee id who t add evm => exact inv_incFee hi id who t add
   | reqBatch t mf bf fr => exact inv_reqBatch hi t mf bf fr
   | bridgeCall a r to d m cs => exact inv_bridgeCall hi a r to d m cs
   | psend a d t am f => exact inv_psend hi a d t am f
@@ -529,7 +617,7 @@ theorem getBal_creditAll (who : Addr) (cs : List (Token × Nat)) (b : Bal) (a : 
 theorem cleanupCalls_settled (s : State) :
     (cleanupCalls s).settled = s.settled ++ (expiredCalls (heightOf callCleanupSrc s) s.calls).map
       (fun c => (⟨true, c.nonce, .refunded, c.refund, c.tokens⟩ : Settle)) := by
-  obtain ⟨fm, hfm⟩ := cleanupCalls_core s
+  obtain ⟨fm, er, hfm⟩ := cleanupCalls_core s
   rw [hfm]
   unfold cleanupCallsCore
   obtain ⟨_, _, _, _, _, _, h7⟩ := foldl_refundCall (expiredCalls (heightOf callCleanupSrc s) s.calls)
@@ -550,7 +638,7 @@ theorem settled_grows (s : State) (op : Op) : ∃ l, (step s op).1.settled = s.s
     simp only [step]; unfold doCancel
     repeat' split
     all_goals first | (refine ⟨[], ?_⟩; simp; done) | exact ⟨_, rfl⟩
-  | incFee id who t add => simp only [step]; unfold doIncFee; (repeat' split) <;> exact ⟨[], by simp⟩
+  | incFee id who t add evm => simp only [step]; unfold doIncFee; (repeat' split) <;> exact ⟨[], by simp⟩
   | reqBatch t mf bf fr => simp only [step]; unfold doReqBatch; simp only; (repeat' split) <;> exact ⟨[], by simp⟩
   | bridgeCall a r to d m cs => simp only [step]; unfold doBridgeCall; simp only; (repeat' split) <;> exact ⟨[], by simp⟩
   | psend a d t am f => simp only [step]; unfold doPSend; (repeat' split) <;> exact ⟨[], by simp⟩
